@@ -454,3 +454,13 @@ _run_o5 = run
 def run(ctx, rep, tier):
     _run_o5(ctx, rep, tier)
     _failed_marker_names_no_live_state(ctx, rep, tier)
+
+
+_run_r6 = run
+
+
+def run(ctx, rep, tier):
+    _run_r6(ctx, rep, tier)
+    from .shared import delegate_fn
+    from . import c15
+    delegate_fn(ctx, rep, tier, c15._run_i15, ("C15.f",), "C05.p", "collapsed ranges (-O2 and above) test the same byte values as the equality tests they replace: bounds are emitted as numbers compared with the unsigned input byte", prop="C15")
